@@ -5,7 +5,7 @@
 //! Log grammar (one string per entry; the driver parses it):
 //!   body effects      eff K | use P | mv P | bdrop P | clone P | yield K
 //!   scope-exit drops  xdrop P                (a recorder dropped by scope exit, not by the body's consume()/drop_now())
-//!   poller / caller   call I | ret I | created I | poll I | pending I | ready I | panicked I
+//!   poller / caller   call I | ret I | created I | poll I | pending I | ready I | panicked I | cancel I .. dropped I
 //!   attribute side    fe J (custom field expression J evaluated) | pe K (parent expression) | fle (follows_from expression)
 //!   tracing           new_span|id|name|level|target|parent|fields   enter|id   exit|id   close|id   follows|id|cause
 //!                     event|level|target|current|fields             tdbg P | tdisp P (Debug/Display run by the collector)
@@ -137,6 +137,18 @@ pub struct PairN {
     pub x: u32,
     pub y: u32,
 }
+
+/// `name = NAMEk` / `target = TGTk`: the identifier forms of the attribute's string arguments.
+pub const NAME0: &str = "name0";
+pub const NAME1: &str = "name1";
+pub const NAME2: &str = "name2";
+pub const NAME3: &str = "name3";
+pub const NAME4: &str = "name4";
+pub const NAME5: &str = "name5";
+pub const TGT0: &str = "tgt0";
+pub const TGT1: &str = "tgt1";
+pub const TGT2: &str = "tgt2";
+pub const TGT3: &str = "tgt3";
 
 /// Plain error value (no effects).
 pub struct Er(pub u32);
@@ -588,7 +600,18 @@ pub fn run_case(case: &Case, mk: &dyn Fn(usize, char, &[u64]) -> Option<Call>) -
             }
         };
         for &i in &case.sched {
-            poll_one(i, &mut futs, &mut results);
+            if i >= 1000 {
+                // cancellation: the caller drops future i - 1000 now (unfinished, or never polled)
+                let j = i - 1000;
+                if j < futs.len() && futs[j].is_some() {
+                    log(format!("cancel {}", j));
+                    results[j] = "cancelled".to_string();
+                    futs[j] = None;
+                    log(format!("dropped {}", j));
+                }
+            } else {
+                poll_one(i, &mut futs, &mut results);
+            }
         }
         // then round-robin until everything is done (bounded: every future yields finitely often)
         let mut rounds = 0;
